@@ -298,6 +298,29 @@ def F17():
         return 'merging images whose dim_info slice entries differ (2 vs 1) -> %s' % type(ex).__name__
 
 
+def F18():
+    import tempfile, shutil
+    from dcmstack import dcmstack_cli
+    root = tempfile.mkdtemp(prefix='f18_')
+    try:
+        out = os.path.join(root, 'out'); os.mkdir(out)
+        for d in ('d0', 'd1'):
+            os.mkdir(os.path.join(root, d))
+            ds = _mk_ds(inst=1, extra={'ProtocolName': 'b c', 'SeriesNumber': 8, 'SeriesInstanceUID': '1.2.3.' + d[1:] + '9'})
+            ds.save_as(os.path.join(root, d, 'a.dcm'), enforce_file_format=True)
+        with contextlib.redirect_stdout(io.StringIO()), contextlib.redirect_stderr(io.StringIO()), warnings.catch_warnings():
+            warnings.simplefilter('ignore')
+            try:
+                dcmstack_cli.main(['dcmstack', '--dest-dir', out, os.path.join(root, 'd0'), os.path.join(root, 'd1')])
+            except SystemExit:
+                pass
+        n = len([f for f in os.listdir(out) if f.endswith('.nii.gz')])
+        if n != 2:
+            return '--dest-dir with two source directories holding equally named series: %d file(s) written for 2 groups' % n
+    finally:
+        shutil.rmtree(root)
+
+
 # ---- open findings (recorded in known-findings.txt, not repaired): these report PRESENT on the current tree
 def N1():
     e = DcmMetaExtension.make_empty((2, 2, 2, 1), np.eye(4), None, 2)
@@ -369,7 +392,7 @@ def deepcopy_ext(e):
 
 
 OPEN = ['N1', 'N2', 'N3', 'N4', 'N6', 'N8']
-ALL = ['F17', 'F16', 'F15', 'F1', 'F2', 'F3', 'F4', 'F5', 'F6', 'F7', 'F8', 'F9', 'F10', 'F11', 'F12', 'F13', 'F14']
+ALL = ['F18', 'F17', 'F16', 'F15', 'F1', 'F2', 'F3', 'F4', 'F5', 'F6', 'F7', 'F8', 'F9', 'F10', 'F11', 'F12', 'F13', 'F14']
 
 if __name__ == '__main__':
     which = sys.argv[1:] or ALL
